@@ -151,6 +151,10 @@ func c13Run(dir string, sc c13Scenario, prefix []int) (vsched.Result, any) {
 				s.DidSave(wire.URI(filepath.Join(dir, "inc.journal")))
 				continue
 			}
+			if m.Special == "close" {
+				s.DidClose(uris[m.Doc])
+				continue
+			}
 			if m.Version == 0 {
 				s.DidOpen(uris[m.Doc], c13VersionText(sc, m))
 			} else {
@@ -174,7 +178,7 @@ func c13Expected(dir string, sc c13Scenario) map[string]string {
 	exp := map[string]string{}
 	final := map[int]c13Msg{}
 	for _, m := range sc.Msgs {
-		if m.Special != "drain" && m.Special != "saveinc" {
+		if m.Special != "drain" && m.Special != "saveinc" && m.Special != "close" {
 			final[m.Doc] = m
 		}
 	}
@@ -260,6 +264,17 @@ func c13Scenarios(thorough bool) []c13Scenario {
 		out = append(out, c13Scenario{Name: name + "-and-nothing-else", Workspace: ws, Include: true, Msgs: []c13Msg{{Doc: 0, Version: 0, Special: "usesinc"}, {Special: "saveinc"}}, Bound: sb})
 		// the text returns to what it was before the included file was saved (same text, other meaning)
 		out = append(out, c13Scenario{Name: name + "-text-comes-back", Workspace: ws, Include: true, Msgs: []c13Msg{{Doc: 0, Version: 0, Special: "usesinc"}, {Special: "saveinc"}, {Doc: 0, Version: 1, Special: "usesinc2"}, {Doc: 0, Version: 2, Special: "usesinc"}}, Bound: sb})
+	}
+	// the document is closed and opened again with the same text while its first
+	// analysis may still be running, the included file being saved in between: the
+	// analysis of the first session must not be taken for the second session's
+	for _, ws := range []bool{false, true} {
+		name := "closed-and-opened-again-around-a-save"
+		if ws {
+			name = "ws-" + name
+		}
+		out = append(out, c13Scenario{Name: name, Workspace: ws, Include: true, Msgs: []c13Msg{{Doc: 0, Version: 0, Special: "usesinc"}, {Doc: 0, Special: "close"}, {Special: "saveinc"}, {Doc: 0, Version: 0, Special: "usesinc"}}, Bound: sb})
+		out = append(out, c13Scenario{Name: name + "-and-a-change", Workspace: ws, Include: true, Msgs: []c13Msg{{Doc: 0, Version: 0, Special: "usesinc"}, {Doc: 0, Version: 1, Special: "usesinc2"}, {Doc: 0, Special: "close"}, {Special: "saveinc"}, {Doc: 0, Version: 0, Special: "usesinc2"}}, Bound: sb})
 	}
 	// two documents: 2+2 and 2+3 messages, interleaved
 	two := []c13Msg{{Doc: 0, Version: 0}, {Doc: 1, Version: 0}, {Doc: 0, Version: 1}, {Doc: 1, Version: 1}}
